@@ -37,6 +37,7 @@ Why(ev) ==
   ELSE LET d == Datum(ev.kind, ev.datum) IN
        (IF Obs(SpecRead2(ev.kind, o.json)) = Ok(d) THEN <<>> ELSE <<"specification reading of the encoding">>)
        \o (IF o.back.ok /\ Datum(ev.kind, o.back.v) = d THEN <<>> ELSE <<"decoded">>)
+       \o (IF "equal" \in DOMAIN o /\ ~o.equal THEN <<"decoded object is not Equal to the original for the library itself">> ELSE <<>>)
        \o (IF o.rejson = "same" THEN <<>> ELSE <<"second encoding differs">>)
        \o (IF \E i \in DOMAIN o.spell : Obs(SpecRead2(ev.kind, o.spell[i].doc)) # Ok(d)
            THEN <<"respelling is not the same datum per the specification (harness)">> ELSE <<>>)
